@@ -31,12 +31,13 @@ SUT_HIT_POLICY = {"U": ("UNIQUE", None), "A": ("ANY", None), "P": ("PRIORITY", N
                   "C+": ("COLLECT SUM", "SUM"), "C<": ("COLLECT MIN", "MIN"), "C>": ("COLLECT MAX", "MAX"),
                   "C#": ("COLLECT COUNT", "COUNT")}
 TYPE_REF = {"num": "number", "str": "string", "bool": "boolean", "date": "date", "dt": "dateTime", "dtd": "dayTimeDuration",
-            "ym": "yearMonthDuration"}
-TEMPORAL = ("date", "dt", "dtd", "ym")
+            "ym": "yearMonthDuration", "time": "time"}
+TEMPORAL = ("date", "dt", "dtd", "ym", "time")
 
 
 class Tv:
-    """A temporal input value: kind + integer key (day number / second of the local time line / seconds / months) + its FEEL text.
+    """A temporal input value: kind + integer key (day number / millisecond of the local time line / seconds / months / millisecond
+    of the day) + its FEEL text.
     Values of one kind are totally ordered by the key; values of different kinds are never compared (dtable_ref._same_kind)."""
     __slots__ = ("kind", "key", "text")
 
@@ -79,7 +80,10 @@ def temporal_key(kind, text):
         return datetime.date.fromisoformat(text).toordinal()
     if kind == "dt":
         d = datetime.datetime.fromisoformat(text)
-        return d.toordinal() * 86400 + d.hour * 3600 + d.minute * 60 + d.second
+        return (d.toordinal() * 86400 + d.hour * 3600 + d.minute * 60 + d.second) * 1000 + d.microsecond // 1000
+    if kind == "time":
+        t = datetime.time.fromisoformat(text)
+        return (t.hour * 3600 + t.minute * 60 + t.second) * 1000 + t.microsecond // 1000
     if kind == "dtd":
         m = _DTD.match(text)
         v = int(m.group(2) or 0) * 86400 + int(m.group(3) or 0) * 3600 + int(m.group(4) or 0) * 60 + int(m.group(5) or 0)
@@ -93,9 +97,14 @@ def temporal_text(kind, key, variant=0):
     """FEEL lexical form of the value with that key; variant 1 = a non-normalised spelling of a duration (PT36H, P14M)."""
     if kind == "date":
         return datetime.date.fromordinal(key).isoformat()
-    if kind == "dt":
-        d, sec = divmod(key, 86400)
-        return "%sT%02d:%02d:%02d" % (datetime.date.fromordinal(d).isoformat(), sec // 3600, sec // 60 % 60, sec % 60)
+    if kind in ("dt", "time"):
+        sec, ms = divmod(key, 1000)
+        frac = (".%03d" % ms).rstrip("0") if ms else ""
+        if kind == "time":
+            sec %= 86400
+            return "%02d:%02d:%02d%s" % (sec // 3600, sec // 60 % 60, sec % 60, frac)
+        d, sec = divmod(sec, 86400)
+        return "%sT%02d:%02d:%02d%s" % (datetime.date.fromordinal(d).isoformat(), sec // 3600, sec // 60 % 60, sec % 60, frac)
     sign, v = ("-" if key < 0 else ""), abs(key)
     if kind == "dtd":
         if variant and v % 3600 == 0 and v:
@@ -139,6 +148,8 @@ def lit_text(l):
         return 'date("%s")' % v
     if k == "dt":
         return 'date and time("%s")' % v
+    if k == "time":
+        return 'time("%s")' % v
     if k in ("dtd", "ym"):
         return 'duration("%s")' % v
     return "true" if v else "false"
@@ -308,7 +319,12 @@ def gen_temporal(src, kind):
         return temporal_text(kind, datetime.date(2020, 2, 27).toordinal() + src.weighted([(4, src.int(0, 5)), (2, src.int(-400, 400)), (1, src.int(-200000, 200000))]))
     if kind == "dt":
         base = datetime.date(2021, 12, 31).toordinal() * 86400 + 86390
-        return temporal_text(kind, base + src.weighted([(4, src.int(0, 20)), (2, src.int(-90000, 90000)), (1, src.int(-10 ** 9, 10 ** 9))]))
+        sec = base + src.weighted([(4, src.int(0, 20)), (2, src.int(-90000, 90000)), (1, src.int(-10 ** 9, 10 ** 9))])
+        # fractions of a second: several values inside one second
+        return temporal_text(kind, sec * 1000 + src.weighted([(4, 0), (2, 500), (1, 250), (1, 1), (1, 999), (1, src.int(0, 999))]))
+    if kind == "time":
+        sec = src.weighted([(4, 36000 + src.int(0, 5)), (2, src.int(0, 86399)), (1, 0), (1, 86399)])
+        return temporal_text(kind, sec * 1000 + src.weighted([(4, 0), (2, 500), (1, 250), (1, 1), (1, 999), (1, src.int(0, 999))]))
     if kind == "dtd":
         key = src.weighted([(3, src.int(-3, 3) * 3600), (3, src.int(-5, 5) * 86400 + src.int(0, 2) * 3600), (2, src.int(-100000, 100000)), (1, 0)])
         return temporal_text(kind, key, variant=1 if src.bool(0.3) else 0)
@@ -316,8 +332,16 @@ def gen_temporal(src, kind):
     return temporal_text(kind, key, variant=1 if src.bool(0.3) else 0)
 
 
+def _time_ok(text):
+    try:
+        datetime.time.fromisoformat(text)
+        return True
+    except ValueError:
+        return False
+
+
 def gen_temporal_default(kind):
-    return {"date": "2020-02-29", "dt": "2021-12-31T23:59:59", "dtd": "PT0S", "ym": "P0M"}[kind]
+    return {"date": "2020-02-29", "dt": "2021-12-31T23:59:59", "dtd": "PT0S", "ym": "P0M", "time": "12:00:00"}[kind]
 
 
 def gen_pool(src, kind, lo=2, hi=4, neg_ok=True):
@@ -555,7 +579,15 @@ def boundary_points(T, j):
         for v in keys:
             for w in (v, v - 1, v + 1):
                 add([kind, temporal_text(kind, w)])
-        far = 1000 if kind != "dt" else 10 ** 7
+        for v in keys:
+            if kind in ("dt", "time"):
+                for w in (v - 1000, v + 1000, v - v % 1000, v - v % 1000 + 999):      # the neighbouring seconds, both ends of this second
+                    add([kind, temporal_text(kind, w)])
+        if kind == "time":
+            add([kind, "00:00:00"])
+            add([kind, "23:59:59.999"])
+            return [l for l in out if 0 <= temporal_key("time", l[1]) < 86400000 and _time_ok(l[1])]
+        far = 1000 if kind != "dt" else 10 ** 10
         add([kind, temporal_text(kind, min(keys) - far)])
         add([kind, temporal_text(kind, max(keys) + far)])
         return out
